@@ -12,7 +12,7 @@ CHECK = {
                 "(quantum, fillInterval) the constructor chose is recorded per rate and the 1 % clause checked exactly. (ii) real Sessions with mux.MakeValve "
                 "under testing/synctest (virtual clock), 10 (96) subprocess batches x 8 (12) cases: 1-4 sessions x 1-4 connections x 1-4 streams sharing one valve, "
                 "ordered/unordered, four methods, rates 1 kB/s..100 MB/s (a fifth below the largest message), backlogged/bursty/periodic writers both directions; "
-                "EVERY pair of event instants is checked. non-trivial = bucket step that had to wait / session case with > 20 timed events",
+                "EVERY pair of event instants is checked. non-trivial = bucket step that had to wait / session case with > 20 timed events (iii) c19huge: mux.MakeValve(r, r) for r up to MaxInt64 driven through its own txWait/rxWait on the virtual clock (a record per millisecond; single reads after idle seconds..40 days): no wait allowed, every call a tb.take row. (iv) tb.search: the exact-arithmetic quantum search vs what the real constructor chose, for every rate built. (v) N first connections of one user arriving together; disconnect/reconnect of the user.",
         "assumptions": ["juju/ratelimit behaves as its source at the version pinned in go.mod says (modelled from that source, compared at run time)",
                         "time.Sleep wakes exactly on time (virtual clock); requests reach a bucket in non-decreasing clock order (its mutex)",
                         "the (quantum, fillInterval) found by NewBucketWithRate is within 1 % of the rate (checked for every rate used, not proved)",
